@@ -150,6 +150,12 @@ func getKeystoreFromJson(keysJson []byte) (*Keystore, error) {
 
 // NOTE: this func will leave the masterKeyPriv derived
 func (a *AddrManager) checkPassword(passphrase []byte) error {
+	// Only strings that can be a passphrase at all are compared: the key
+	// derivation feeds the passphrase to HMAC as key, which pads it with
+	// zeros, so "pass" and "pass\x00" would otherwise be the same key.
+	if !ValidatePassphrase(passphrase) {
+		return ErrInvalidPassphrase
+	}
 	if a.unlocked {
 		saltedPassphrase := append(a.privPassphraseSalt[:],
 			passphrase...)
